@@ -53,18 +53,153 @@ def dump(e):
     return ["other", f.__name__]
 
 
+# ------------------------------------------------------------------ hints (UNTRUSTED: only candidates for the Coq checker)
+def clean(fr):
+    """the exact value a float most probably stands for: a small fraction or a short decimal within 1e-14 (relative)"""
+    if fr == 0:
+        return fr
+    cands = [fr.limit_denominator(1000)]
+    for digits in (6, 8, 10, 12, 13, 14, 15):
+        cands.append(Fraction("%.*g" % (digits, float(fr))))
+    for c in cands:
+        if abs(c - fr) <= abs(fr) * Fraction(1, 10 ** 14):
+            return c
+    return fr
+
+
+def frac_text(fr):
+    return str(fr.numerator) if fr.denominator == 1 else "%d/%d" % (fr.numerator, fr.denominator)
+
+
+def exact_text(e):
+    if e.func is Float:
+        sign, man, exp, _bc = e._mpf_
+        v = Fraction(int(man)) * (Fraction(2) ** int(exp))
+        return frac_text(clean(-v if sign else v))
+    return frac_text(Fraction(int(e.p), int(e.q)))
+
+
+def _fold(op, items):
+    t = items[-1]
+    for x in reversed(items[:-1]):
+        t = "(%s %s %s)" % (op, x, t)
+    return t
+
+
+def hint_convert(expr, symbols_map, d, flag):
+    """(printed text or None, hint): follows _convert_internal_expression_to_pddl of the library, using the library's own
+    extract_atom / is_number_string for every decision; the hint is the same tree with exact constants, the dropped
+    terms kept"""
+    if expr.is_Atom:
+        s = nso.extract_atom(expr, symbols_map, d, flag)
+        if expr.is_number and not expr.is_Integer:
+            return s, exact_text(expr)
+        return s, (s if s is not None else "0")
+    if isinstance(expr, Pow):
+        n = int(expr.exp)
+        if not expr.exp.is_Integer or n == 0:
+            raise ValueError("exponent")
+        bs, bh = hint_convert(expr.base, symbols_map, d, flag)
+        bs = bs if bs else "0"
+        ts, th = bs, bh
+        for _ in range(abs(n) - 1):
+            ts, th = "(* %s %s)" % (ts, bs), "(* %s %s)" % (th, bh)
+        return (ts, th) if n > 0 else ("(/ 1 %s)" % ts, "(/ 1 %s)" % th)
+    op = nso.SYMPY_OP_TO_PDDL_OP[expr.func]
+    comps = [hint_convert(a, symbols_map, d, flag) for a in expr.args]
+    if isinstance(expr, Mul) and any(not c[0] for c in comps):
+        return None, _fold("*", [c[1] for c in comps])
+    kept = [c for c in comps if c[0]]
+    dropped = [c[1] for c in comps if not c[0]]
+    if not kept:
+        return None, _fold("+", dropped)
+    numfirst = nso.is_number_string(kept[0][0])
+    ts = th = None
+    for cs, ch in reversed(kept):
+        if ts is None:
+            ts, th = cs, ch
+        elif numfirst:
+            ts, th = "(%s %s %s)" % (op, ts, cs), "(%s %s %s)" % (op, th, ch)
+        else:
+            ts, th = "(%s %s %s)" % (op, cs, ts), "(%s %s %s)" % (op, ch, th)
+    for z in dropped:
+        th = "(+ %s %s)" % (z, th)
+    return ts, th
+
+
+def _tokens(text):
+    return re.findall(r"\(|\)|[^\s()]+", text)
+
+
+def _sexp(text):
+    toks = _tokens(text)
+    pos = [0]
+
+    def rd():
+        t = toks[pos[0]]
+        pos[0] += 1
+        if t == "(":
+            l = []
+            while toks[pos[0]] != ")":
+                l.append(rd())
+            pos[0] += 1
+            return l
+        return t
+    return rd()
+
+
+def cond_hints(cond_text, table, extra_right=()):
+    """candidate hints for one printed condition (op L R): every combination of the hints recorded for texts equal to L and R"""
+    try:
+        e = _sexp(cond_text)
+        if not (isinstance(e, list) and len(e) == 3 and e[0] in CMP):
+            return []
+        l, r = _show(e[1]), _show(e[2])
+        ls = table.get(l, []) + [l]
+        rs = table.get(r, []) + list(extra_right) + [r]
+        out = []
+        for a in ls:
+            for b in rs:
+                h = "(%s %s %s)" % (e[0], a, b)
+                if h != _show(e) and h not in out:
+                    out.append(h)
+        return out[:6]
+    except Exception:  # noqa
+        return []
+
+
+def hint_table():
+    table = {}
+    for g in _LOG:
+        if g.get("kind") == "convert" and g.get("hint") and isinstance(g.get("result"), str):
+            try:
+                key = _show(_sexp(g["result"]))
+            except Exception:  # noqa
+                continue
+            if g["hint"] not in table.setdefault(key, []):
+                table[key].append(g["hint"])
+    return table
+
+
 def _rec_convert(expr, symbolic_vars, decimal_digits=nso.DEFAULT_DECIMAL_DIGITS, should_remove_trailing_zeros=True):
     entry = {"kind": "convert", "tree": None, "symmap": None, "digits": decimal_digits,
              "flag": bool(should_remove_trailing_zeros)}
     try:
         entry["tree"] = dump(expr)
-        entry["symmap"] = [[k, v.name] for k, v in symbolic_vars.items()]
+        entry["symmap"] = [[k, v.name] for k, v in (symbolic_vars or {}).items()]
     except Exception as ex:  # noqa
         entry["dump_error"] = repr(ex)
     try:
         r = _ORIG_CONVERT(expr, symbolic_vars, decimal_digits=decimal_digits,
                           should_remove_trailing_zeros=should_remove_trailing_zeros)
         entry["result"] = r
+        try:
+            t, h = hint_convert(expr, {v: k for k, v in (symbolic_vars or {}).items()}, decimal_digits,
+                                should_remove_trailing_zeros)
+            if (t if t else "0") == r:
+                entry["hint"] = h
+        except Exception as ex:  # noqa
+            entry["hint_error"] = repr(ex)
         return r
     except Exception as ex:
         entry["raised"] = type(ex).__name__
@@ -160,7 +295,7 @@ def run(job):
                 aa = parse_prefix(a)
                 assumptions.append("%s = %s" % (infix(aa[1]), infix(aa[2])))
             res = nso.simplify_inequality(infix(ast), ast[0], assumptions, decimal_digits=d)
-            outs = [res]
+            outs = [] if res is None else [res]
         elif entry == "eq":
             ast = parse_prefix(job["conds"][0])
             res = nso.simplify_equality("%s = %s" % (infix(ast[1]), infix(ast[2])), decimal_digits=d)
@@ -194,7 +329,37 @@ def run(job):
         out["raised"] = type(ex).__name__
         out["msg"] = str(ex)[:200]
     out["glue"] = list(_LOG)
+    try:
+        out["hints"] = make_hints(job, out)
+    except Exception as ex:  # noqa
+        out["hints"] = []
+        out["hints_error"] = repr(ex)
     return out
+
+
+def make_hints(job, out):
+    if "ok" not in out:
+        return []
+    table = hint_table()
+    if job["entry"] == "expr":
+        return [h for h in table.get(_show(_sexp(out["ok"][0])), [])][:4]
+    conds = out["ok"]
+    if job["entry"] == "print":
+        e = _sexp(out["ok"][0])
+        conds = [_show(c) for c in e[1:]]
+    extra = []
+    if job["entry"] == "tree":
+        extra = [_show(_sexp(job["conds"][0])[2])]
+    hints = []
+    for c in conds:
+        for h in cond_hints(c, table, extra):
+            if h not in hints:
+                hints.append(h)
+    for c in job["conds"]:
+        c = _show(_sexp(c))
+        if c not in hints:
+            hints.append(c)
+    return hints[:12]
 
 
 def _show(e):
@@ -213,4 +378,4 @@ def facts(job):
             "fluent_regex": m.group(1) if m else None, "strip_regex": m2.group(1) if m2 else None,
             "float_str": [str(Float(0.125)), str(Float(2.675)), str(Float(1234.56789)), str(Float(1e-5))],
             "float_fmt": [format(Float(0.125), ".2f"), format(Float(2.675), ".2f"), format(Float(-0.004), ".2f"),
-                          format(Float(2.5), ".0f"), format(Rational(1, 8), ".2f"), format(Rational(2, 3), ".3f")]}
+                          format(Float(2.5), ".0f"), format(Float(Rational(1, 8)), ".2f"), format(Float(Rational(-7, 8823)), ".3f")]}
